@@ -55,29 +55,29 @@ func (s *Satisfaction) Spec_MethodParameters() interface{} {
 
 func (s *Satisfaction) Spec_ParseParams(dm *model.DecisionMaker) interface{} {
 	var params SatisfactionParameters
-	utils.DecodeToStruct(dm.MethodParameters, &params)
+	utils.Spec_DecodeToStruct(dm.MethodParameters, &params)
 	return params
 }
 
 func (s *Satisfaction) Spec_Evaluate(dmp *model.DecisionMakingParams) *model.AlternativesRanking {
 	params := dmp.MethodParameters.(SatisfactionParameters)
-	satisfactionLevels := satisfaction_levels.Find(params.Function, params.Params, s.functions)
+	satisfactionLevels := satisfaction_levels.Spec_Find(params.Function, params.Params, s.functions)
 	satisfactionLevels.Initialize(dmp)
-	generator := s.generator(params.GetRandomSeed())
-	current, considered := limited_rationality.GetAlternativesSearchOrder(dmp, &params, generator)
-	leftToChoice, result, resultIds, resultInsertIndex, thresholdIndex := checkWithinSatisfactionLevels(dmp, current, considered, satisfactionLevels)
-	fillRemainingAlternatives(leftToChoice, thresholdIndex, resultInsertIndex, result, resultIds, weightsSupplier(dmp))
-	ranking := limited_rationality.PrepareSequentialRanking(result, resultIds)
+	generator := s.generator(params.Spec_GetRandomSeed())
+	current, considered := limited_rationality.Spec_GetAlternativesSearchOrder(dmp, &params, generator)
+	leftToChoice, result, resultIds, resultInsertIndex, thresholdIndex := Spec_checkWithinSatisfactionLevels(dmp, current, considered, satisfactionLevels)
+	Spec_fillRemainingAlternatives(leftToChoice, thresholdIndex, resultInsertIndex, result, resultIds, Spec_weightsSupplier(dmp))
+	ranking := limited_rationality.Spec_PrepareSequentialRanking(result, resultIds)
 	return &ranking
 }
 
 func Spec_weightsSupplier(dmp *model.DecisionMakingParams) func() model.Weights {
 	return func() model.Weights {
-		alternatives := dmp.AllAlternatives()
+		alternatives := dmp.Spec_AllAlternatives()
 		weights := make(model.Weights, len(dmp.Criteria))
 		for _, c := range dmp.Criteria {
-			valRange := model.CriteriaValuesRange(&alternatives, &c)
-			if c.IsGain() {
+			valRange := model.Spec_CriteriaValuesRange(&alternatives, &c)
+			if c.Spec_IsGain() {
 				weights[c.Id] = valRange.Min
 			} else {
 				weights[c.Id] = valRange.Max
@@ -98,7 +98,7 @@ func Spec_fillRemainingAlternatives(
 		thresholdIndex += 1
 		lowestThresholds := lowestThresholdSup()
 		for _, a := range leftToChoice {
-			resultInsertIndex = updateResult(result, resultInsertIndex, a, thresholdIndex, resultIds, &lowestThresholds)
+			resultInsertIndex = Spec_updateResult(result, resultInsertIndex, a, thresholdIndex, resultIds, &lowestThresholds)
 		}
 	}
 }
@@ -117,12 +117,12 @@ func Spec_checkWithinSatisfactionLevels(
 	for satisfactionLevels.HasNext() {
 		thresholdIndex++
 		t := satisfactionLevels.Next()
-		thresholds := dmp.Criteria.ZipWithWeights(&t)
-		tempLeftToChoice := *model.CopyAlternatives(&leftToChoice)
+		thresholds := dmp.Criteria.Spec_ZipWithWeights(&t)
+		tempLeftToChoice := *model.Spec_CopyAlternatives(&leftToChoice)
 		for _, a := range leftToChoice {
-			if isGoodEnough(a, thresholds) {
-				tempLeftToChoice = model.RemoveAlternative(tempLeftToChoice, a)
-				resultInsertIndex = updateResult(result, resultInsertIndex, a, thresholdIndex, resultIds, &t)
+			if Spec_isGoodEnough(a, thresholds) {
+				tempLeftToChoice = model.Spec_RemoveAlternative(tempLeftToChoice, a)
+				resultInsertIndex = Spec_updateResult(result, resultInsertIndex, a, thresholdIndex, resultIds, &t)
 			}
 		}
 		leftToChoice = tempLeftToChoice
@@ -154,8 +154,8 @@ func Spec_updateResult(
 
 func Spec_isGoodEnough(alternative model.AlternativeWithCriteria, thresholds *model.WeightedCriteria) bool {
 	for _, v := range *thresholds {
-		criterionValue := alternative.CriterionValue(&v.Criterion)
-		threshold := float64(v.Multiplier()) * v.Weight
+		criterionValue := alternative.Spec_CriterionValue(&v.Criterion)
+		threshold := float64(v.Spec_Multiplier()) * v.Weight
 		if criterionValue < threshold {
 			return false
 		}
